@@ -257,6 +257,42 @@ def rim(seed):
     return es, vs, truth
 
 
+class InPlacePrior(BaseEdge):
+    """User-defined unary edge whose error function works IN PLACE on what the pose accessors hand out (to_compact(), position): these are the
+    caller's own arrays -- arithmetic on them must not reach the pose."""
+
+    def calc_error(self):
+        e = self.vertices[0].pose.to_compact()
+        e -= self.estimate
+        p = self.vertices[0].pose.position
+        p *= 0.0
+        return e
+
+    def is_valid(self):
+        return self._is_valid() and len(self.vertices) == 1
+
+
+def inplace(kind):
+    def f(seed):
+        es, vs, truth = make(kind, seed, fixed=(1, 2))
+        for j in (1, 2, 3):
+            es.append(InPlacePrior([vs[j].id], np.eye(B.CDIM[kind]), np.asarray(truth[j].to_compact()) + 0.01))
+        lm = [v for v in vs if len(v.pose) == B.DIM[kind]][0]
+        lm.fixed = True
+        es.append(InPlacePrior([lm.id], np.eye(B.DIM[kind]), np.asarray(lm.pose.to_compact()) + 0.02))
+        return es, vs, truth
+    return f
+
+
+def noid(seed):
+    """SE(3) landmark edges created without the optional offset id."""
+    es, vs, truth = make('SE3', seed)
+    for e in es:
+        if hasattr(e, 'offset'):
+            e.offset_id = None
+    return es, vs, truth
+
+
 def hard(seed):
     """SE(2) graph in which one information matrix has an infinite entry (a "hard" constraint component) and another one a NaN: chi^2 and
     the optimizer are useless there, but every query must still leave the stored numbers alone."""
@@ -283,6 +319,9 @@ def negated(seed):
 
 
 TEMPLATES = {
+    'se2inplace': inplace('SE2'),
+    'se3inplace': inplace('SE3'),
+    'se3noid': noid,
     'se2hard': hard,
     'se2rim': rim,
     'se3neg': negated,
